@@ -261,6 +261,8 @@ class Executor(Exec):
             return k(SPrim("Id", S.Id.IntId(v)), st)
         if name == "cast":
             return k(args[1], st)
+        if name == "iter" and len(args) == 1:
+            return k(args[0], st)              # used only as an iterable
         if name == "print":
             return k(SNone(), st)
         if name == "super":
@@ -420,6 +422,10 @@ class Executor(Exec):
             if isinstance(c, ObjCell):
                 cls = RESOLVE_AS.get(c.cls, c.cls)
                 m = self.P.find_method(cls, name)
+                if m is None and name == "keys" and self.P.find_method(cls, "__iter__"):
+                    # collections.abc.Mapping.keys(): a view that iterates through __iter__
+                    it = self.P.find_method(cls, "__iter__")
+                    return self.call_function(it[1], [recv], {}, st, k, owner=it[0])
                 if m is None: raise Unsupported(f"{c.cls}.{name}")
                 qual = f"fggs.{self.P.classes[m[0]].module}.{m[0]}.{name}"
                 if name in self.P.classes[m[0]].static:
@@ -432,6 +438,9 @@ class Executor(Exec):
             m = self.P.find_method(recv.ty, name)
             if m: return self.call_function(m[1], [recv] + args, kw, st, k, owner=recv.ty)
         if isinstance(recv, SSubSet): return self.subset_method(recv, name, args, st, k)
+        if isinstance(recv, SDictV):
+            if name == "keys": return k(SSetV(recv.kty, recv.dom), st)
+            raise Unsupported(f"method .{name} of an immutable mapping")
         if isinstance(recv, SSetV):
             if name == "issubset" or name == "issuperset":
                 o = self.to_setv(args[0], st)
